@@ -517,8 +517,10 @@ fn check(ctx: &mut Ctx, c: &Case, o: &mut Outcome) -> R<()> {
         }
         let (tx, rx) = async_channel::bounded(256);
         es(h.open(ns, OpenOpts::default().sync().subscribe(tx)).await)?;
+        let mut accepted_pre = (0u64, 0u64);
         for e in &pre {
             if h.insert_remote(ns, e.clone(), [1u8; 32], ContentStatus::Missing).await.is_ok() {
+                accepted_pre = (accepted_pre.0 + 1, accepted_pre.1.wrapping_add(e.content_len()));
                 if model.apply(e).is_none() {
                     return Err("pre-fill: store accepted what the model rejects (C02 territory)".into());
                 }
@@ -529,6 +531,13 @@ fn check(ctx: &mut Ctx, c: &Case, o: &mut Outcome) -> R<()> {
         let _ = act::drain(&rx);
         let before = act::dump(&h, ns).await?;
         let from = [0x5Au8; 32];
+        // "counted as inserted": the actor's own counters of entries added by peers
+        let counted = |h: &iroh_docs::actor::SyncHandle| (h.metrics().new_entries_remote.get(), h.metrics().new_entries_remote_size.get());
+        let counted_before = counted(&h);
+        if counted_before != accepted_pre {
+            o.fail("C03/counted-as-inserted", format!("{} single remote inserts were accepted ({} bytes) and {} refused, but the actor counts {} entries / {} bytes as added by peers", accepted_pre.0, accepted_pre.1, pre.len() as u64 - accepted_pre.0, counted_before.0, counted_before.1));
+            return Ok(());
+        }
         let reply = h.sync_process_message(ns, msg, from, Default::default()).await;
         let (_reply, outcome) = match reply {
             Ok(x) => x,
@@ -583,6 +592,24 @@ fn check(ctx: &mut Ctx, c: &Case, o: &mut Outcome) -> R<()> {
         }
         if outcome.num_recv != values.len() {
             o.fail("C03/num-recv", format!("num_recv {} for {} values", outcome.num_recv, values.len()));
+        }
+        // never more entries (or bytes) counted as added by peers than were valid and actually applied
+        let counted_after = counted(&h);
+        let applied_len: u64 = expected_events.iter().map(|e| e.content_len()).fold(0u64, |a, b| a.saturating_add(b));
+        if counted_after.0 - counted_before.0 > expected_events.len() as u64 || counted_after.1.saturating_sub(counted_before.1) > applied_len {
+            o.fail(
+                "C03/counted-as-inserted",
+                format!(
+                    "message with {:?}-tampered {} (valid={valid}) among {} values: the actor's counters of entries added by peers went up by {} entries / {} bytes, but only {} entries / {} bytes were valid and applied",
+                    c.tamper,
+                    describe(&offered),
+                    values.len(),
+                    counted_after.0 - counted_before.0,
+                    counted_after.1.saturating_sub(counted_before.1),
+                    expected_events.len(),
+                    applied_len
+                ),
+            );
         }
         let _ = h.shutdown().await.map(|mut s| {
             if let Err(e) = self_consistent(&mut s, ns) {
